@@ -122,6 +122,7 @@ def bounded(leg, describe):
 
 EXPLORE = bounded("explore", "model-based exploration of the real Server over InMemoryStorage, SqliteStorage and SqliteStorage re-opened before every request; every response and the complete stored state (through the StorageTxn getters and, for SQLite, independent raw SQL) compared with the executable contract after every request")
 FAULTS = bounded("faults", "every storage call of a request (begin, reads, writes, commit) made to fail before / after taking effect, on SQLite behind a fault-injecting Storage wrapper")
+SQLCONF = bounded("sqlconf", "method-by-method conformance of sqlite/src/lib.rs to the storage contract (contracts/storage_trait.rs): every StorageTxn method from enumerated states, results and post-states compared with the contract, abstraction by independent raw SQL, commit / drop / re-open")
 INTERLEAVE = bounded("interleave", "a complete competing library request placed between any two transactions of an HTTP request, on three backend configurations; outcome compared with both one-at-a-time orders")
 
 
@@ -170,10 +171,10 @@ def _configure():
     NR_MEM = "core/src/inmemory.rs: locking (Mutex) is not modelled (A3)"
     cfg("C01", "proof", ["A1", "A2", "A4", "A6", "A8", "A11", "A13"], assumptions=[A["A1"], A["A8"]], not_reached=[NR_SQL, NR_MEM],
         explanation="chain_wf (one unbranched chain, child index = inverse of parent links, no orphans, snapshot on chain) is an invariant: preserved by every contracted operation (av.inv, snap.inv, read-only clauses), the storage preconditions that protect it are discharged at every call site (st.*.pre), and the history lemmas (unit L) lift it to all finite histories and to the walk from the base",
-        legs=[EXPLORE, INTERLEAVE])
+        legs=[EXPLORE, INTERLEAVE, SQLCONF])
     cfg("C02", "proof", ["A1", "A4", "A6", "A8", "A11", "A12", "A13"], assumptions=[A["A1"], A["A8"]], not_reached=[NR_SQL, NR_HTTP],
         explanation="postconditions av.accept_iff / av.accepted_state / av.rejected / av.id_from_v4 / av.ack_after_commit of the real Server::add_version, for every abstract pre-state satisfying chain_wf, every parent id, payload and placement of storage faults; enc.av for the HTTP entry point",
-        legs=[EXPLORE])
+        legs=[EXPLORE, SQLCONF])
     cfg("C03", "proof", ["A3", "A4", "A5", "A13"], assumptions=[A["A3"], A["A5"], "the reduction from interleavings to the three sequential obligations O1-O3 is a paper argument (DESIGN.md 5.C03), not machine-checked"],
         not_reached=["lock-wait budget / busy timeouts; anything inside SQLite or Mutex; partial overlap inside a transaction is excluded by A3/A5, not checked", NR_SQL],
         explanation="three sequential obligations: O1 every Server operation uses exactly one transaction opened for its own client (E9 twin + may_open); O2 every storage precondition in a handler is established inside the same transaction (Server::txn returns an arbitrary invariant-satisfying state); O3 effects reach durable state only through one commit and success is reported only after it",
@@ -181,31 +182,31 @@ def _configure():
     cfg("C05", "proof", ["A4", "A5", "A6", "A13"], assumptions=[A["A5"]],
         not_reached=["error propagation inside sqlite/src/lib.rs itself (a swallowed rusqlite error there is invisible to Verus; the bounded fault leg injects faults at the StorageTxn boundary only)", NR_HTTP],
         explanation="the storage contract lets every call fail (fault counter); *.err_only_on_fault, av.err_atomic, *.ack_after_commit, *.drop_clean and enc.* (Other => 500) are proved for every placement of failures",
-        legs=[FAULTS])
+        legs=[FAULTS, HTTP])
     cfg("C06", "proof", ["A2", "A4", "A9", "A13"], not_reached=[NR_SQL, NR_HTTP],
         explanation="Seq<u8> equalities end to end: handler passes exactly the concatenation of the chunks for every chunking (body.loop.*), library stores and returns the same sequence (av.accepted_state, gcv.found, gs.pair), handlers put exactly those bytes in the response body (enc.*)",
-        legs=[EXPLORE])
+        legs=[EXPLORE, SQLCONF, HTTP])
     cfg("C07", "proof", ["A1", "A4", "A13"], assumptions=[A["A1"]], not_reached=[NR_SQL, NR_MEM],
         explanation="every operation's postcondition fixes the whole post-state as a function of the pre-state in which existing versions / child links are only ever extended (add_version_spec inserts a fresh key; all other outcomes leave the maps equal); lemma L.immutable",
-        legs=[EXPLORE])
+        legs=[EXPLORE, SQLCONF])
     cfg("C08", "proof", ["A4", "A6", "A11", "A13"], not_reached=[NR_SQL, NR_HTTP],
         explanation="gcv.found / gcv.split / gcv.nosuch of the real Server::get_child_version share the spec fn accept() with av.accept_iff of Server::add_version",
         legs=[EXPLORE])
     cfg("C09", "proof", ["A2", "A4", "A9", "A13"], not_reached=[NR_SQL, NR_MEM, "header parsing by actix"],
         explanation="frame clauses: every storage write is a whole-database equation cur' = cur[client := n]; every Server operation changes at most its own client's durable state (*.frame) through a transaction opened for its own id (E9 twin); the client id comes only from the header (hdr.ok); two-run lemma L.isolation",
-        legs=[EXPLORE])
+        legs=[EXPLORE, SQLCONF])
     cfg("C10", "proof", ["A4", "A6", "A10", "A11", "A13"], not_reached=[NR_SQL],
         explanation="acceptance predicate snap_should_accept written from the statement (literal 5; corner v = non-nil base left free); loop invariant of the bounded walk; declined => untouched; success either way",
-        legs=[EXPLORE])
+        legs=[EXPLORE, SQLCONF])
     cfg("C11", "proof", ["A4", "A6", "A13"], not_reached=[NR_SQL, "schedules (AddSnapshot overlapping GetSnapshot) only via C03's reduction"],
         explanation="gs.pair / gs.none (id and bytes of the stored snapshot, both written by one set_snapshot call: snap.applied), chain_wf's snapshot conjunct (snapshot version on the chain or its base) preserved by every operation, walk lemma L.snap_base",
-        legs=[EXPLORE])
+        legs=[EXPLORE, SQLCONF])
     cfg("C12", "proof", ["A7", "A8", "A10", "A12", "A13"], assumptions=[A["A7"], A["A8"]], not_reached=[NR_SQL, "the wall clock (A10)", "configuration wiring in main (C17)"],
         explanation="threshold functions equal floor(3t/2)/t spec for ALL targets without overflow (Verus over all i64/u32), urgency = max of both from the pre-request record (av.urgency), counter bumped by add_version_spec and reset by new_snap (storage contract)",
-        legs=[EXPLORE, KANI_URGENCY])
+        legs=[EXPLORE, KANI_URGENCY, SQLCONF])
     cfg("C13", "exploration", ["A13"], not_reached=["the SQLite side is ONLY bounded; proved part: server.rs never calls storage outside the documented preconditions (st.*.pre call-site obligations) and the contract is functional"],
         explanation="bounded: the same executable contract is the oracle for all three backend configurations (in-memory, SQLite, SQLite re-opened before every request), so equal histories give equal responses up to ids/clock",
-        legs=[EXPLORE])
+        legs=[EXPLORE, SQLCONF])
     cfg("C14", "proof", ["A9", "A11", "A13"], assumptions=[A["A9"]], not_reached=[NR_HTTP],
         explanation="enc.* postconditions of the four real handlers and server_error_to_actix / failure_to_ise: for EVERY possible library outcome the status, exact header list, content type and body are as the statement says (relative to the actix stand-ins)",
         legs=[HTTP])
@@ -215,9 +216,13 @@ def _configure():
     cfg("C16", "proof", ["A2", "A9", "A13"], assumptions=[A["A9"]], not_reached=[NR_HTTP, "WebServer::new wiring (one constructor call) is covered by the bounded HTTP leg only"],
         explanation="client_id_header's postconditions (hdr.*) + the `authorised` precondition on every library entry point reachable from the handlers (auth.pre.*): a handler cannot reach the library, not even to open a transaction, for an id the allow-list excludes; 403 => call log unchanged",
         legs=[HTTP])
+    cfg("C20", "other", ["A9", "A13"], assumptions=[A["A9"], "that actix-web applies a scope's middleware to EVERY response of the scope (errors, unknown routes) is assumed, not verified"],
+        not_reached=[NR_HTTP, "other middleware wrapped by the binary's main() around the whole App (ErrorHandlers, Logger)"],
+        explanation="structural obligation cfg.cache on the real WebServer::config: exactly one scope is registered, wrapped by exactly one middleware, a DefaultHeaders adding Cache-Control with a value that forbids storage, and nothing else is wrapped around it; the implication to 'every response' rests on the assumed actix contract; the bounded HTTP leg checks the header on every response it sees (all routes, outcomes, refusals, unknown routes, storage failures)",
+        legs=[HTTP])
     cfg("C18", "proof", ["A4", "A6", "A11", "A13"], not_reached=[NR_SQL],
         explanation="every non-mutating outcome (reads, conflict, declined snapshot, unknown client, refused request) leaves the whole transaction view / call log equal up to the fault counter",
-        legs=[EXPLORE])
+        legs=[EXPLORE, SQLCONF])
 
 
 KANI_URGENCY = {"name": "kani:urgency", "tiers": ("thorough",), "run": lambda prop, tier, seed: kani_urgency(), "required": False}
